@@ -5,12 +5,32 @@ from . import rules_atomic as RA
 from . import rules_slab as RS
 from . import rules_qs as RQ
 from . import rules_radix as RR
+from . import rules_own as RO
 
 
-def need_unit(ctx, name, **kw):
+def need_unit(ctx, name, w1=False, **kw):
+    """Parse an instantiation unit. With w1=True, compile errors located in /repo's headers are
+    instances of rule W1 (an ill-formed member), not an analysis failure."""
     u = load_unit(name, **kw)
     ctx.use_unit(u)
     errs = unit_errors(u)
+    if w1:
+        import os, re
+        from .ir import ROOT
+        ctx.rule("W1.well-formed", "every member of every claimed class template is well-formed when instantiated with the "
+                 "witness types (explicit instantiation forces all members)", 1)
+        inrepo = [e for e in errs if e["file"].startswith(ROOT)]
+        errs = [e for e in errs if not e["file"].startswith(ROOT)]
+        seen = set()
+        for e in inrepo:
+            key = (os.path.basename(e["file"]), re.sub(r"'[^']*'", "'T'", e["text"]))
+            if key in seen:
+                continue
+            seen.add(key)
+            ctx.inst("W1.well-formed", "%s: %s" % key, False, "%s:%s" % (e["file"], e["line"]),
+                     "ill-formed on instantiation: %s" % e["text"])
+        ctx.inst("W1.well-formed", "unit %s%s" % (name, kw.get("tag", "")), not inrepo, u.src,
+                 "%d functions instantiated, %d diagnostics of level error in /repo headers" % (len(u.functions), len(inrepo)))
     if errs:
         msgs = "; ".join("%s:%s: %s" % (e["file"], e["line"], e["text"]) for e in errs[:5])
         raise AnalysisBroken("instantiation unit %s does not compile against the current tree: %s" % (name, msgs))
@@ -87,4 +107,43 @@ def C09(ctx):
             "leaves or under a clear bit. Not decided: exactness of the map over all key sets, ascending iteration order.")
 
 
-PROPS = {"C10": C10, "C09": C09, "C11": C11, "C12": C12, "C05": C05, "C04": C04}
+SEQ_OWNERS = ["frg::vector", "frg::small_vector", "frg::dyn_array"]
+
+
+def C13(ctx):
+    u = need_unit(ctx, "sequences")
+    RO.check_empty(ctx, u, ["frg::vector", "frg::small_vector", "frg::dyn_array", "frg::stack", "frg::list",
+                            "frg::_list::intrusive_list"])
+    RO.check_front_back(ctx, u, ["frg::vector", "frg::small_vector"])
+    RG.check_swap(ctx, u, SEQ_OWNERS)
+    RO.check_relocation(ctx, u, ["frg::vector", "frg::small_vector"])
+    RO.check_forward_once(ctx, u, ["frg::vector", "frg::small_vector"])
+    return ("Structural clauses of C13: emptiness polarity, front/back subscripts, swap completeness, relocation ranges "
+            "in growth, forwarded arguments consumed once, intrusive list link protocol. Not decided: equality with a "
+            "reference sequence after arbitrary histories.")
+
+
+def C16(ctx):
+    us = need_unit(ctx, "sequences")
+    uh = need_unit(ctx, "hash_map")
+    ust = need_unit(ctx, "string")
+    uo = need_unit(ctx, "holders", w1=True)
+    ur = need_unit(ctx, "radix")
+    ctx.rule("O1.alloc-escapes", "every block obtained from the allocator is, on every path, stored in an owning place, "
+             "returned, handed to a parameter that can own it, or freed", 20)
+    for u in (us, uh, ust, uo, ur):
+        RO.check_local_allocs(ctx, u, [f for f in u.functions if f.uq.startswith("frg::")])
+    RO.check_owner_specials(ctx, us, SEQ_OWNERS + ["frg::list"])
+    RO.check_owner_specials(ctx, uh, ["frg::hash_map"], rule="O2.owner-specials")
+    RO.check_owner_specials(ctx, ust, ["frg::basic_string"], rule="O2.owner-specials")
+    RO.check_owner_specials(ctx, uo, ["frg::unique_memory"], rule="O2.owner-specials")
+    RO.check_owner_specials(ctx, ur, ["frg::rcu_radixtree"], rule="O2.owner-specials")
+    RO.check_size_agreement(ctx, us, ["frg::small_vector", "frg::dyn_array"])
+    RO.check_size_agreement(ctx, uh, ["frg::hash_map"], rule="O3.size-agreement")
+    RO.check_destroy_before_free(ctx, us, SEQ_OWNERS)
+    RO.check_destroy_before_free(ctx, uo, ["frg::unique_ptr"], rule="O4.destroy-before-free")
+    RO.check_relocation(ctx, us, ["frg::vector", "frg::small_vector"])
+    return ("Structural clauses of C16. Not decided: exactly-once as a count over arbitrary histories.")
+
+
+PROPS = {"C13": C13, "C16": C16, "C10": C10, "C09": C09, "C11": C11, "C12": C12, "C05": C05, "C04": C04}
